@@ -380,6 +380,39 @@ Cycle(y) ==
     IN  IF y1.c.out # "ok" THEN y1 ELSE TickTimers(y1)
 
 -----------------------------------------------------------------------------
+(* Quiescent fast-forward, specification level (used by SysTrace for long runs; the property layer of C06 is that the CODE's  *)
+(* fast-forward is invisible, so the specification's own one has to be justified independently):                            *)
+(* if one Cycle from y changed nothing but the timers and the audio ports -- the core fetched one instruction, touched no    *)
+(* data, no MMIO register, raised no interrupt, made no callback and is where it was -- then every following cycle repeats   *)
+(* it until a peripheral raises an interrupt.  Within the common horizon of the four ticking components, k further cycles    *)
+(* are k ticks of each of them, and k ticks within the horizon equal one Skip(k) without interrupt: TimerInd!StepLemma /       *)
+(* HorizonLemma (Apalache, all 32-bit states), Btdmp!SkipIsTicks (TLC, scaled capacity; bound to the code by BtdmpTrace).      *)
+FetchOnly(c, pc0) == Len(c.acc) <= 2 /\ \A i \in 1 .. Len(c.acc) : c.acc[i][2] = 0 /\ c.acc[i][1] \in {pc0, pc0 + 1}
+QuietStep(y, y1) ==
+    /\ y.c.idle /\ y1.c.idle /\ y.c.out = "ok" /\ y1.c.out = "ok"
+    /\ FetchOnly(y1.c, y.c.r.pc)
+    /\ y1.c.r = y.c.r /\ y1.c.lat = y.c.lat /\ y1.c.vaddr = y.c.vaddr /\ y1.c.vctx = y.c.vctx /\ y1.c.miu = y.c.miu
+    /\ y1.icu = y.icu /\ y1.ev = y.ev
+MinI(a, b) == IF a <= b THEN a ELSE b
+\* a wide horizon as an integer, capped (TLC integers are 32-bit)
+CapW(w, cap) == IF w[1] >= 16384 THEN cap ELSE MinI(w[1] * 65536 + w[2], cap)
+\* (an enabled audio port emits one frame per period also from an empty queue: at most 128 frames per jump)
+FrameCap(b, cap) == IF b.en = 0 THEN cap ELSE MinI(cap, 128 * (IF b.pd = 0 THEN 1 ELSE b.pd))
+CommonHorizon(y, cap) ==
+    MinI(MinI(CapW(TM!Horizon(y.tm[1]), cap), CapW(TM!Horizon(y.tm[2]), cap)),
+         MinI(MinI(BT!Horizon(y.bt[1]), FrameCap(y.bt[1], cap)), MinI(BT!Horizon(y.bt[2]), FrameCap(y.bt[2], cap))))
+RECURSIVE AudioFrames(_, _, _)
+AudioFrames(y, evs, j) == IF j > Len(evs) THEN y ELSE AudioFrames(Ev(y, EvAudio(evs[j][2], evs[j][3])), evs, j + 1)
+\* k cycles at once from a quiescent state (k <= CommonHorizon): [y, k]
+JumpBy(y, k) ==
+    LET kw == <<k \div 65536, k % 65536>>
+        t1 == TM!SkipOp(y.tm[1], kw)  t2 == TM!SkipOp(y.tm[2], kw)
+        b1 == BT!SkipOp(y.bt[1], k)   b2 == BT!SkipOp(y.bt[2], k)
+        ok == t1.out = "ok" /\ t2.out = "ok" /\ b1.out = "ok" /\ b2.out = "ok"
+        y1 == [y EXCEPT !.tm = <<t1.t, t2.t>>, !.bt = <<b1.s, b2.s>>]
+    IN  IF ok THEN AudioFrames(y1, b1.ev, 1) ELSE [y EXCEPT !.c = Fail(y.c, "skip-lemma")]
+Jump(y, maxk) == LET k == CommonHorizon(y, maxk) IN [y |-> IF k > 0 THEN JumpBy(y, k) ELSE y, k |-> k]
+
 ApFresh == [rdy |-> (0 :> 0) @@ (1 :> 0) @@ (2 :> 0), dat |-> (0 :> 0) @@ (1 :> 0) @@ (2 :> 0), dis |-> (0 :> 0) @@ (1 :> 0) @@ (2 :> 0),
             sem |-> 0, msk |-> 0, sig |-> 0]
 ApReset == [fc |-> ApFresh, fd |-> ApFresh]
